@@ -4,14 +4,14 @@ From Coq Require Import List Arith ZArith Bool Lia.
 Import ListNotations.
 From Acts.Gen Require Import GenState.
 From Acts.Model Require Import Engine Oracles.
-From Acts.Proofs Require Import EngineBasics.
+From Acts.Proofs Require Import EngineBasics TimeoutInv.
 
 Definition legal_ev (x : ev) : bool :=
   match x with ETrans _ o n _ _ => legal o n || revive o n | _ => true end.
 Definition P (e : eng) : Prop := forallb legal_ev (trace e) = true.
 (* an error is only ever stored together with the error state *)
 Definition Q (e : eng) : Prop := forall t, t_err (tk e t) <> None -> st e t = SError.
-Definition Inv (e : eng) : Prop := P e /\ Q e /\ W e.
+Definition Inv (e : eng) : Prop := P e /\ Q e /\ W e /\ T e.
 (* inside one engine operation, after the initialisation phase, no failure is pending *)
 Definition J (e : eng) : Prop := Inv e /\ exn e = false /\ QR e.
 
@@ -25,10 +25,11 @@ Qed.
 
 Lemma Inv_ext e e' : ext e e' -> Inv e -> Inv e'.
 Proof.
-  intros X (HP & HQ & HW). split; [|split].
-  - destruct X as (_ & (l & T & F) & _). unfold P. rewrite T, forallb_app, HP. simpl. now apply forallb_nontrans.
+  intros X (HP & HQ & HW & HT). split; [|split; [|split]].
+  - destruct X as (_ & (l & Tl & F) & _). unfold P. rewrite Tl, forallb_app, HP. simpl. now apply forallb_nontrans.
   - intros t Ht. rewrite (ext_st _ _ t X). apply HQ. now rewrite <- (ext_err _ _ t X).
   - eapply W_ext; eauto.
+  - eapply T_ext; eauto.
 Qed.
 Definition xext (e e' : eng) : Prop := ext e e' /\ exn e' = exn e.
 Lemma J_xext e e' : xext e e' -> J e -> J e'.
@@ -41,12 +42,13 @@ Proof. apply internal_TaskState_dec_bl. Qed.
 
 Lemma Inv_set_state site e i s : Inv e -> legal (st e i) s || revive (st e i) s = true -> Inv (set_state site e i s).
 Proof.
-  intros (HP & HQ & HW) L. split; [|split].
+  intros (HP & HQ & HW & HT) L. split; [|split; [|split]].
   - unfold P. rewrite trace_set_state, forallb_app, HP. simpl. now rewrite L.
   - intros t Ht. unfold st in *. rewrite tk_set_state in *.
     destruct (Nat.eqb t i && Nat.ltb i (length (tasks e))) eqn:E; [|now apply HQ].
     simpl in *. destruct (is s SError) eqn:ES; [now apply is_eq in ES | congruence].
   - now apply W_set_state.
+  - now apply T_set_state.
 Qed.
 Lemma exn_set_state site e i s : exn (set_state site e i s) = exn e.
 Proof. unfold set_state. destruct (_ && _); reflexivity. Qed.
@@ -64,7 +66,7 @@ Proof.
 Qed.
 Lemma Inv_set_err site e i c : Inv e -> legal (st e i) SError = true -> Inv (set_err site e i c).
 Proof.
-  intros (HP & HQ & HW) L. unfold set_err. split; [|split].
+  intros (HP & HQ & HW & HT) L. unfold set_err. split; [|split; [|split]].
   - unfold P. rewrite trace_set_state.
     assert (Hs : st (tmod e i (fun t => tset_err t (Some c))) i = st e i).
     { unfold st. rewrite tk_tmod. destruct (_ && _); reflexivity. }
@@ -73,6 +75,7 @@ Proof.
     destruct (Nat.eqb t i && Nat.ltb i (length (tasks (tmod e i (fun t0 => tset_err t0 (Some c)))))) eqn:E; [reflexivity|].
     rewrite tk_tmod in *. unfold tmod in E; cbn [tasks with_tasks] in E. rewrite upd_length in E. rewrite E in *. now apply HQ.
   - apply W_set_state. apply W_tmod; auto.
+  - apply T_set_state. apply T_tmod; auto.
 Qed.
 Lemma exn_set_err site e i c : exn (set_err site e i c) = exn e.
 Proof. unfold set_err. now rewrite exn_set_state. Qed.
@@ -100,10 +103,9 @@ Lemma xext_add_ev e x : is_trans x = false -> xext e (add_ev e x).
 Proof. intros H. split; [now apply ext_add_ev | reflexivity]. Qed.
 Lemma xext_upsert e i : xext e (upsert e i). Proof. split; [apply ext_upsert | reflexivity]. Qed.
 Lemma xext_tmod e i f : keeps f -> xext e (tmod e i f). Proof. intros K. split; [now apply ext_tmod | reflexivity]. Qed.
-Lemma xext_set_data e i v : xext e (set_data e i v). Proof. apply xext_tmod; intros y; auto. Qed.
-Lemma xext_set_silent e i b : xext e (set_silent e i b). Proof. apply xext_tmod; intros y; auto. Qed.
-Lemma xext_set_exposed e i b : xext e (set_exposed e i b). Proof. apply xext_tmod; intros y; auto. Qed.
-Lemma xext_add_tmo_done e i b : xext e (add_tmo_done e i b). Proof. apply xext_tmod; intros y; auto. Qed.
+Lemma xext_set_data e i v : xext e (set_data e i v). Proof. apply xext_tmod; intros y; repeat split; reflexivity. Qed.
+Lemma xext_set_silent e i b : xext e (set_silent e i b). Proof. apply xext_tmod; intros y; repeat split; reflexivity. Qed.
+Lemma xext_set_exposed e i b : xext e (set_exposed e i b). Proof. apply xext_tmod; intros y; repeat split; reflexivity. Qed.
 Lemma xext_set_catch_done e i : ext e (set_catch_done e i) -> xext e (set_catch_done e i).
 Proof. intros H; split; [exact H | reflexivity]. Qed.
 Lemma exn_build_acts e pn acts sq : exn (build_acts e pn acts sq) = exn e.
@@ -207,13 +209,13 @@ Proof.
   - (* step *)
     apply Hif. intros e0 X. eapply J_xext; [|eapply J_xext; [exact X | exact HJ]].
     eapply xext_trans; [|apply xext_dispatch_setup].
-    eapply xext_trans; apply xext_tmod; intros y; auto.
+    eapply xext_trans; apply xext_tmod; intros y; repeat split; reflexivity.
   - (* act *)
     apply Hif. intros e0 X.
     set (e1 := dispatch_setup (set_timeouts (set_catches e0 i (n_catches (tnode e i))) i (n_timeouts (tnode e i))) i (n_setup (tnode e i))).
     assert (X1 : xext e e1).
     { eapply xext_trans; [exact X|]. unfold e1. eapply xext_trans; [|apply xext_dispatch_setup].
-      eapply xext_trans; apply xext_tmod; intros y; auto. }
+      eapply xext_trans; apply xext_tmod; intros y; repeat split; reflexivity. }
     assert (J1 : J e1) by (eapply J_xext; eauto).
     assert (S1 : fresh_state (st e1 i)) by (rewrite (ext_st _ _ i (proj1 X1)); exact Hs).
     destruct (sp_u (n_spec (tnode e i))).
@@ -344,10 +346,11 @@ Proof.
 Qed.
 Lemma J_set_catch_done e i : J e -> J (set_catch_done e i).
 Proof.
-  intros ((HP & HQ & HW) & HX & HQR). split; [split; [|split]|split].
+  intros ((HP & HQ & HW & HT) & HX & HQR). split; [split; [|split; [|split]]|split].
   - exact HP.
   - intros t Ht. destruct (st_set_catch_done e i t) as [-> E]. apply HQ. now rewrite <- E.
   - apply W_tmod; auto.
+  - apply T_tmod; auto.
   - exact HX.
   - intros j Hj. unfold set_catch_done. rewrite ntasks_tmod. now apply HQR.
 Qed.
@@ -408,7 +411,7 @@ Proof.
             destruct (match c with Some x => Nat.eqb x code | None => true end); [|exact Gee].
             pose proof Gee as [Jee Lee].
             assert (Herr : st ee i = SError).
-            { destruct Jee as ((_ & HQ & _) & _). apply HQ. congruence. }
+            { destruct Jee as ((_ & HQ & _ & _) & _). apply HQ. congruence. }
             assert (Jcd : J (set_catch_done ee i)) by (apply J_set_catch_done; exact Jee).
             assert (Scd : st (set_catch_done ee i) i = SError).
             { rewrite (proj1 (st_set_catch_done ee i i)). exact Herr. }
@@ -437,7 +440,7 @@ Proof.
     destruct (parent (emit f e i) i) as [p|] eqn:Ep; [|exact G1].
     destruct (is_completed (st (emit f e i) p)) eqn:Ec; [exact G1|].
     assert (Hp : p < ntasks (emit f e i)).
-    { destruct G1 as [((_ & _ & HW) & _) L]. apply parent_lt in Ep; auto; lia. }
+    { destruct G1 as [((_ & _ & HW & _) & _) L]. apply parent_lt in Ep; auto; lia. }
     assert (G2 : G (emit f e i) (set_err 20 (emit f e i) p code)).
     { apply G_set_err; [apply G1|]. apply legal_to_terminal; auto. }
     eapply G_trans; [exact G1|]. eapply G_trans; [exact G2|].
@@ -519,7 +522,7 @@ Proof.
     eapply G_trans; [exact GE|].
     assert (Ri : i < ntasks (emit f (update_data e1 i cv) i)) by (destruct GE; lia).
     apply IHr; [apply GE | | exact Ri].
-    destruct GE as [((_ & _ & HW) & _) _]. apply parent_lt in Ep; auto; lia.
+    destruct GE as [((_ & _ & HW & _) & _) _]. apply parent_lt in Ep; auto; lia.
   - (* review *)
     intros cv from e i HJ Hi Hfrom. cbn [review].
     destruct (t_evproc (tk e from)); [now apply G_refl|].
@@ -584,7 +587,7 @@ Proof.
     eapply G_trans; [exact GE|].
     assert (Ri : i < ntasks e2) by (destruct GE; lia).
     apply IHr; [apply GE | | exact Ri].
-    destruct GE as [((_ & _ & HW) & _) _]. apply parent_lt in Ep; auto; lia.
+    destruct GE as [((_ & _ & HW & _) & _) _]. apply parent_lt in Ep; auto; lia.
 Qed.
 
 (* ---------------------------------------------------------------------------------------------
